@@ -198,4 +198,33 @@ Definition avalanches_f (zf : N -> float -> float -> float -> float)
            (ws : list (option N)) (pads : list (list (option N))) : list (aval float float) :=
   avalanches 0%float fpos fgt zf D P (isort (lessW fgt)) (isort (lessP fgt)) ws pads.
 
+(* --- the same executable skeleton with the centroid left SYMBOLIC ------------------------ *)
+(* z = (row of the middle pad, first, middle, last): what pad_hits_at_t feeds into the centroid formula.
+   zmir = the effect of mirroring the pad rows on these arguments (row -> 575 - row, first <-> last); on this
+   representation the antisymmetry premise of the mirror theorem holds EXACTLY, so the theorem applies to
+   binary64 amplitudes (Signal/Avalanches_float_proofs.v).  avalanches_f zf = map (eval zf) avalanches_s. *)
+Definition zsym : Type := (N * float * float * float)%type.
+Definition zf_sym (row : N) (f m l : float) : zsym := (row, f, m, l).
+Definition zmir (z : zsym) : zsym := let '(r, f, m, l) := z in (575 - r, l, m, f).
+Definition zeval (zf : N -> float -> float -> float -> float) (z : zsym) : float :=
+  let '(r, f, m, l) := z in zf r f m l.
+Definition map_z {zt zt' amp} (h : zt -> zt') (a : aval zt amp) : aval zt' amp :=
+  Aval (av_wire a) (av_t a) (h (av_z a)) (av_wamp a) (av_pamp a).
+Definition avalanches_s (D : list N -> list (list float)) (P : N -> list float)
+           (ws : list (option N)) (pads : list (list (option N))) : list (aval zsym float) :=
+  avalanches 0%float fpos fgt zf_sym D P (isort (lessW fgt)) (isort (lessP fgt)) ws pads.
+
+(* --- known-finding class centroid_ill_conditioned (F11) ----------------------------------- *)
+(* the argument of the first logarithm of matching.rs:82, minus one, in binary64 (what the harness recogniser
+   evaluates): sigma^2 = w^2 / ln (middle^2 / (first * last)) *)
+Definition cond_number (f m l : float) : float := (m * m / (f * l) - 1)%float.
+(* measured boundary 2.22e-10 (largest conditioning number at which the implementation misses 1e-9 m);
+   0x1.75d57df90fadfp-32 = 3.4e-10 is the value of THETA in harness/phys/src/c13.rs *)
+Definition THETA : float := 0x1.75d57df90fadfp-32%float.
+(* some pad hit of some column and time bin has cond_number < THETA *)
+Definition centroid_ill_conditioned (P : N -> list float) (pads : list (list (option N))) : Prop :=
+  exists (c t : nat) (z : zsym) (a : float),
+    In (z, a) (pad_hits_at_t 0%float fpos fgt zf_sym (pad_inputs_column P (nth c pads [])) t) /\
+    (let '(_, f, m, l) := z in PrimFloat.ltb (cond_number f m l) THETA) = true.
+
 Definition contiguous_ranges_n (ws : list (option N)) : list (N * N) := contiguous_ranges ws.
